@@ -159,11 +159,47 @@ KNOWN_DEFAULTS = {
 }
 
 
+_PROG = [None]
+
+
+def _declared_default(prog, callee, kwname):
+    """source text of the default every function of the analysed program named like the callee declares for the parameter
+    (None if there is no such function or they disagree)"""
+    if prog is None or not callee:
+        return None
+    last = callee.split('.')[-1]
+    found = set()
+    for q, f in prog.functions.items():
+        if q.split('.')[-1].split('#')[0] != last:
+            continue
+        a = f.node.args
+        pos = a.posonlyargs + a.args
+        dflt = {}
+        for arg, d in zip(pos[len(pos) - len(a.defaults):], a.defaults):
+            dflt[arg.arg] = d
+        for arg, d in zip(a.kwonlyargs, a.kw_defaults):
+            if d is not None:
+                dflt[arg.arg] = d
+        if kwname in dflt:
+            found.add(src(dflt[kwname]))
+        elif kwname in {x.arg for x in pos + a.kwonlyargs}:
+            found.add(None)
+    if len(found) == 1 and None not in found:
+        return next(iter(found))
+    return None
+
+
 def _is_default_keyword(expr, kwname):
     for c in ast.walk(expr):
         if isinstance(c, ast.Call):
             for kw in c.keywords:
-                if kw.arg == kwname and src(kw.value) in KNOWN_DEFAULTS.get(kwname, ()):
+                if kw.arg != kwname:
+                    continue
+                if src(kw.value) in KNOWN_DEFAULTS.get(kwname, ()):
+                    return True
+                # a function of the repository itself: spelling out the declared default changes nothing
+                callee = src(c.func)
+                if _declared_default(_PROG[0], callee, kwname) == src(kw.value):
                     return True
     return False
 
@@ -181,11 +217,20 @@ def classify(ref_rec, cur_rec):
                 rn, cn = ref_rec[2], cur_rec[2]
                 same_body = False
                 try:
-                    same_body = bool(rn.body) and bool(cn.body) and _key(records_of([rn.body[0]])[0]) == _key(records_of([cn.body[0]])[0])
+                    def keys(block):
+                        return [_key(x) for x in records_of(block)]
+                    # the whole branches are where they were (and differ from each other): only the test changed
+                    same_body = bool(rn.body) and keys(rn.body) == keys(cn.body) and keys(rn.orelse) == keys(cn.orelse) \
+                        and keys(rn.body) != keys(rn.orelse)
                 except Exception:
                     same_body = False
                 if same_body:       # (negated test with swapped branches is the same statement)
                     v, d = 'mutation', 'condition negated'
+        if v == 'mutation' and d.startswith('keyword argument') and 'dropped' in d:
+            # dropping a keyword that spelled out the default (library table or the repository's own declaration)
+            parts = d.split()
+            if len(parts) > 2 and _is_default_keyword(r, parts[2]):
+                v, d = 'equal', None
         if v == 'different':
             # the other direction: the reference is one `dropped` mutation away from the current statement, i.e. a keyword
             # argument (with a non-default value), a conjunct or a disjunct was ADDED
@@ -267,17 +312,17 @@ def diff_function(ref_fn, cur_fn):
         ref_params = [a.arg for a in ref_fn.args.args]
         cur_params = [a.arg for a in cur_fn.args.args]
         renamed_params = {a: b for a, b in zip(ref_params, cur_params) if a != b} if len(ref_params) == len(cur_params) else {}
-        bind_changes = dict(renamed_params)
+        bind_changes = {a: {b} for a, b in renamed_params.items()}
         for f in findings:
             rb, cb = _binds(f[2]), _binds(f[3])
             if rb != cb and len(rb - cb) == 1 and len(cb - rb) == 1:
-                bind_changes[next(iter(rb - cb))] = next(iter(cb - rb))
+                bind_changes.setdefault(next(iter(rb - cb)), set()).add(next(iter(cb - rb)))
         ref_all = {n.id for n in ast.walk(ref_fn) if isinstance(n, ast.Name)} | {a.arg for a in ast.walk(ref_fn) if isinstance(a, ast.arg)}
         cur_all = {n.id for n in ast.walk(cur_fn) if isinstance(n, ast.Name)} | {a.arg for a in ast.walk(cur_fn) if isinstance(a, ast.arg)}
         for f in ren:
             # description: variable X replaced by Y
             parts = f[1].split()
-            if len(parts) >= 5 and bind_changes.get(parts[1]) == parts[4]:
+            if len(parts) >= 5 and parts[4] in bind_changes.get(parts[1], ()):
                 f[0] = 'different'
             elif len(parts) >= 5 and parts[1] not in cur_all and parts[4] not in ref_all:
                 f[0] = 'different'      # X no longer exists and Y is new: X was renamed to Y throughout the function
@@ -303,6 +348,7 @@ def run(ctx, rule, min_functions=1):
     ref = load_reference(ctx.prop)
     if ref is None:
         return
+    _PROG[0] = ctx.prog
     n = 0
     gone = []
     for qual, text in sorted(ref['functions'].items()):
